@@ -9,6 +9,7 @@ import (
 	"testing"
 	"time"
 
+	"github.com/paulsonkoly/chess-3/board"
 	"pgregory.net/rapid"
 
 	"verif/eng"
@@ -154,9 +155,72 @@ func checkUCI(c Case, rec *evid.Rec) error {
 	return nil
 }
 
+// TwoCase: two games from the initial position advanced in the order given (then each to its end).
+type TwoCase struct {
+	ViaStartPos [2]bool     `json:"via_startpos"`
+	Moves       [2][]string `json:"moves"`
+	Order       []int       `json:"order"`
+}
+
+func twoGames(c TwoCase, rec *evid.Rec) error {
+	var bs [2]*board.Board
+	var ps [2]refchess.Pos
+	var cnt [2]map[string]int
+	var next [2]int
+	for g := 0; g < 2; g++ {
+		ps[g] = refchess.MustFEN(gen.StartFEN)
+		if c.ViaStartPos[g] {
+			bs[g] = board.StartPos()
+		} else {
+			bs[g], _ = board.FromFEN(gen.StartFEN)
+		}
+		cnt[g] = map[string]int{ps[g].Key(): 1}
+	}
+	step := func(g int) error {
+		if next[g] >= len(c.Moves[g]) {
+			return nil
+		}
+		m, err := refchess.ParseMove(c.Moves[g][next[g]])
+		if err != nil {
+			return err
+		}
+		next[g]++
+		bs[g].MakeMove(eng.Enc(m))
+		ps[g] = ps[g].Make(m)
+		cnt[g][ps[g].Key()]++
+		for h := 0; h < 2; h++ { // both games are checked after every step of either
+			want := min(3, cnt[h][ps[h].Key()])
+			if got := int(bs[h].Threefold()); got != want {
+				return fmt.Errorf("game %d after %v (other game after %v): Threefold() = %d, the position has occurred %d time(s)", h, c.Moves[h][:next[h]], c.Moves[1-h][:next[1-h]], got, cnt[h][ps[h].Key()])
+			}
+		}
+		if rec != nil {
+			rec.Eval(1)
+			if cnt[g][ps[g].Key()] >= 2 {
+				rec.Class("two_games_recurrence")
+				rec.NT(evid.H("two", g, c.Moves[g][:next[g]], c.Moves[1-g][:next[1-g]]))
+			}
+		}
+		return nil
+	}
+	for _, g := range c.Order {
+		if err := step(g); err != nil {
+			return err
+		}
+	}
+	for g := 0; g < 2; g++ {
+		for next[g] < len(c.Moves[g]) {
+			if err := step(g); err != nil {
+				return err
+			}
+		}
+	}
+	return nil
+}
+
 func TestC10(t *testing.T) {
 	evid.Main(t, "C10", func(rec *evid.Rec) {
-		rec.Rule("model-based histories: start = suite/bench/synthetic/motif root (FEN-loaded, hash history reset, en-passant field engine-normalised), then up to 200 generated steps from the actions {reverse my move of two plies ago, replay the last 4-ply cycle, irreversible move, double push/castle/promotion, king/rook/knight shuffle, random}; after EVERY move Threefold() is compared with min(3, occurrences of the reference identity (placement, side, rights, en-passant capturability) in the history list). UCI leg: the same games through `position fen F moves ...` + `go depth 2` (bestmove 0000 iff third occurrence / no legal move / clock>=100). Separate class: start FENs carrying a raw, uncapturable en-passant target (known finding). Non-trivial = step with true count >= 2, or an earlier position with the same placement but different rights / en-passant capturability; distinct by (start, move prefix)")
+		rec.Rule("model-based histories: start = suite/bench/synthetic/motif root (FEN-loaded, hash history reset, en-passant field engine-normalised), then up to 200 generated steps from the actions {reverse my move of two plies ago, replay the last 4-ply cycle, irreversible move, double push/castle/promotion, king/rook/knight shuffle, random}; after EVERY move Threefold() is compared with min(3, occurrences of the reference identity (placement, side, rights, en-passant capturability) in the history list). UCI leg: the same games through `position fen F moves ...` + `go depth 2` (bestmove 0000 iff third occurrence / no legal move / clock>=100). Two games alive at once (set up through board.StartPos() and FromFEN) advanced alternately must not disturb each other's counts. Separate class: start FENs carrying a raw, uncapturable en-passant target (known finding). Non-trivial = step with true count >= 2, or an earlier position with the same placement but different rights / en-passant capturability; distinct by (start, move prefix)")
 		rec.Assume("reference identity of positions from verif/refchess (Key: placement, side, rights, capturable en-passant)")
 		rec.Rapid(t, "history", evid.Pick(20000, 300000), func(t *rapid.T) {
 			root, label := gen.Root(t)
@@ -199,6 +263,21 @@ func TestC10(t *testing.T) {
 			err, _ := checkCase(c, rec)
 			if err != nil {
 				rec.Fail("long_history", err.Error(), c)
+				t.Fatalf("%v", err)
+			}
+		})
+		rec.Rapid(t, "two_games", evid.Pick(3000, 40000), func(t *rapid.T) {
+			// two games alive at the same time, advanced alternately: their histories must not interfere.
+			// Both start from the initial position, set up through board.StartPos() and / or FromFEN.
+			c := TwoCase{ViaStartPos: [2]bool{gen.Chance(t, 2, 3, "sp0"), gen.Chance(t, 2, 3, "sp1")}}
+			root := refchess.MustFEN(gen.StartFEN)
+			c.Moves[0] = gen.History(t, root, 40)
+			c.Moves[1] = gen.History(t, root, 40)
+			for i := gen.Draw(t, 0, 60, "switches"); i > 0; i-- {
+				c.Order = append(c.Order, gen.Draw(t, 0, 1, "who"))
+			}
+			if err := twoGames(c, rec); err != nil {
+				rec.Fail("two_games", err.Error(), c)
 				t.Fatalf("%v", err)
 			}
 		})
@@ -262,6 +341,13 @@ func TestC10(t *testing.T) {
 			}
 		})
 	}, func(check string, raw json.RawMessage) error {
+		if check == "two_games" {
+			var tc TwoCase
+			if err := json.Unmarshal(raw, &tc); err != nil {
+				return err
+			}
+			return twoGames(tc, nil)
+		}
 		var c Case
 		if err := json.Unmarshal(raw, &c); err != nil {
 			return err
